@@ -10,8 +10,11 @@ package gabi
 // parts contribute values that do not depend on the challenge).
 
 import (
+	"fmt"
+
 	"github.com/privacybydesign/gabi/big"
 	"github.com/privacybydesign/gabi/gabikeys"
+	"github.com/privacybydesign/gabi/internal/verif/vkit"
 )
 
 func vfForge(b *DisclosureProofBuilder, pk *gabikeys.PublicKey, attach func(p *ProofD), issig bool) *ProofD {
@@ -115,4 +118,105 @@ func vfOwnContributions(view *ProofD, pk *gabikeys.PublicKey) (out []*big.Int, o
 		}
 	}
 	return l, true
+}
+
+// vfDegenerateAForgeries: disclosure proofs whose randomised signature element A is not a unit modulo n
+// (0, n, 2n, n(n+1)).  Every power of such an A is 0, so the commitment the verifier reconstructs would
+// be 0 whatever the responses are: if the verifier goes along with it, anybody can write down an
+// accepted "proof" disclosing any values, and - with the secret-key response copied from an honest
+// member - have it accepted in a list as a proof about the same secret.  The challenge is computed from
+// what the verifier really reconstructs (fixed-point iteration, as in vfForge).
+func vfDegenerateAForgeries(r *vkit.Report, prop string, keyNames []string) {
+	for _, keyName := range keyNames {
+		k := vfK(keyName)
+		pk := k.Pk
+		N := pk.N
+		credH := vfMint(k, vfTag("degA-secret"), []*big.Int{vfInt(7), vfTag("degA-a2")}, 2)
+		for _, dv := range []struct {
+			name string
+			a    *big.Int
+		}{{"0", vfInt(0)}, {"n", vfCopy(N)}, {"2n", new(big.Int).Lsh(N, 1)}, {"n(n+1)", new(big.Int).Mul(N, new(big.Int).Add(N, vfInt(1)))}} {
+			for _, inList := range []bool{false, true} {
+				if _, mine := r.Next(); !mine {
+					continue
+				}
+				r.Eval()
+				desc := fmt.Sprintf("%s: forged disclosure proof with A=%s claiming attribute 1 = 424242", keyName, dv.name)
+				route := "single"
+				if inList {
+					route = "in-a-list"
+					desc += ", second member of a list, secret-key response copied from the honest first member"
+				}
+				r.Nontrivial(prop + "|" + desc)
+				forged := &ProofD{A: vfCopy(dv.a), EResponse: vfInt(1), VResponse: vfInt(1),
+					AResponses: map[int]*big.Int{0: vfInt(5), 2: vfInt(5)}, ADisclosed: map[int]*big.Int{1: vfInt(424242)}}
+				var b *DisclosureProofBuilder
+				if inList {
+					var err error
+					if b, err = credH.CreateDisclosureProofBuilder([]int{1}, nil, false); err != nil {
+						r.HarnessError("builder: %v", err)
+						return
+					}
+					rnd, err := NewProofRandomizers()
+					if err == nil {
+						_, err = b.Commit(rnd)
+					}
+					if err != nil {
+						r.HarnessError("commit: %v", err)
+						return
+					}
+				}
+				var list ProofList
+				c := vfInt(1)
+				found := false
+				for iter := 0; iter < 4 && !found; iter++ {
+					forged.C = c
+					list = nil
+					if inList {
+						h := b.CreateProof(c).(*ProofD)
+						forged.AResponses[0] = vfCopy(h.AResponses[0])
+						list = append(list, h)
+					}
+					list = append(list, forged)
+					var contrib []*big.Int
+					ok := true
+					for _, m := range list {
+						view := &ProofD{}
+						var l []*big.Int
+						var err error
+						if pan, _ := vkit.Guard(func() { vfJSONCopy(m, view); l, err = view.ChallengeContribution(pk) }); pan || err != nil {
+							ok = false
+							break
+						}
+						contrib = append(contrib, l...)
+					}
+					if !ok {
+						break
+					}
+					c2 := createChallenge(vfContext, vfNonce, contrib, false)
+					found = c2.Cmp(c) == 0
+					c = c2
+				}
+				if !found {
+					r.Outcome("degenerate-A:" + route + ":refused-or-no-fixed-point")
+					continue
+				}
+				var acc bool
+				pks := []*gabikeys.PublicKey{pk}
+				if inList {
+					pks = append(pks, pk)
+				}
+				vkit.Guard(func() { acc = vsCloneList(list).Verify(pks, vfContext, vfNonce, false, nil) })
+				if !inList && !acc {
+					q := &ProofD{}
+					vfJSONCopy(forged, q)
+					vkit.Guard(func() { acc = q.Verify(pk, vfContext, vfNonce, false) })
+				}
+				r.Outcome(fmt.Sprintf("degenerate-A:%s:fixed-point:accepted=%v", route, acc))
+				if acc {
+					r.Violate(prop+"|forged-proof-with-degenerate-A-accepted|"+route, desc+": accepted (no credential and no secret behind it)", map[string]any{"key": keyName, "A": dv.name, "route": route})
+				}
+			}
+		}
+	}
 }
